@@ -11,6 +11,7 @@ import (
 	"regexp"
 	"runtime"
 	"sort"
+	"strconv"
 	"strings"
 	"sync"
 	"sync/atomic"
@@ -82,6 +83,73 @@ func parallel(fns ...func()) {
 		}(f)
 	}
 	wg.Wait()
+}
+
+// withWatchdog runs one bounded workload round; if it does not finish within the (generous)
+// limit the goroutines are dumped and classified: every workload goroutine blocked in a
+// sync/channel wait = the round can never complete (deadlock) = violation; anything else =
+// inconclusive. Either way this worker process cannot continue: it exits with status 77 and the
+// parent restarts a worker behind this case.
+func withWatchdog(w *W, idx int, caseID string, limit time.Duration, fn func()) {
+	if v := os.Getenv("VERIF_WATCHDOG_S"); v != "" { // self-test only: a shorter limit
+		if n, err := strconv.Atoi(v); err == nil {
+			limit = time.Duration(n) * time.Second
+		}
+	}
+	done := make(chan struct{})
+	go func() {
+		defer close(done)
+		fn()
+	}()
+	select {
+	case <-done:
+		return
+	case <-time.After(limit):
+	}
+	buf := make([]byte, 8<<20)
+	buf = buf[:runtime.Stack(buf, true)]
+	blocked, active, sample := classifyGoroutines(string(buf))
+	if blocked > 0 && active == 0 {
+		w.Violate(idx, caseID, fmt.Sprintf("[deadlock] the round did not complete within %s and all %d workload goroutines are blocked in sync/channel waits:\n%s", limit, blocked, sample), "",
+			map[string]any{"idx": idx, "race": true, "engine": "E3", "kind": "hang"})
+	} else {
+		w.Inconclusive(caseID, fmt.Sprintf("round exceeded %s with %d blocked and %d active workload goroutines", limit, blocked, active))
+	}
+	w.flush(false)
+	os.Exit(77)
+}
+
+// classifyGoroutines counts workload goroutines (those with library or harness workload frames,
+// except the watchdog itself) that are blocked vs runnable/running/sleeping.
+func classifyGoroutines(dump string) (blocked, active int, sample string) {
+	for _, g := range strings.Split(dump, "\n\n") {
+		if !strings.HasPrefix(g, "goroutine ") {
+			continue
+		}
+		if !strings.Contains(g, "kelindar/column") || strings.Contains(g, "withWatchdog") {
+			continue
+		}
+		head := g
+		if j := strings.Index(g, "\n"); j >= 0 {
+			head = g[:j]
+		}
+		switch {
+		case strings.Contains(head, "[running"), strings.Contains(head, "[runnable"), strings.Contains(head, "[syscall"), strings.Contains(head, "[sleep"), strings.Contains(head, "[IO wait"):
+			active++
+		case strings.Contains(g, "(*Collection).vacuum"):
+			// the cleanup goroutine waits on its ticker by design
+		default:
+			blocked++
+			if len(sample) < 3000 {
+				lines := strings.Split(g, "\n")
+				if len(lines) > 12 {
+					lines = lines[:12]
+				}
+				sample += strings.Join(lines, "\n") + "\n\n"
+			}
+		}
+	}
+	return
 }
 
 func rngFor(seed int64, parts ...int) *rand.Rand {
